@@ -437,7 +437,7 @@ ChunkSizingResult<IntegerT> adjustChunkSizing(
     if (range.isAuto()) {
       isStatic = true;
     } else if (!range.isStatic()) {
-      maxThreads = range.size() - wait;
+      maxThreads = std::min<size_type>(maxThreads, range.size() - wait);
     }
   }
 
